@@ -112,6 +112,8 @@ pub(crate) fn c06_oracle(c: &BuildCase, st: &mut Stats) -> Verdict {
 pub enum PartCase {
     Chunk(ChunkSpec),
     Item(ItemSpec),
+    /// an FCI builder used directly as a writer (every FCI builder implements `RtcpPacketWriter`)
+    Fci(FciSpec),
 }
 
 /// SdesChunkBuilder / SdesItemBuilder have their own `write_into` but a private size function,
@@ -129,6 +131,11 @@ fn observe_part(p: &PartCase) -> BuildObs {
                 step("SdesItemBuilder::write_into");
                 guard(|| werr(b.write_into(buf)))
             }
+            PartCase::Fci(f) => {
+                let h = fci(f);
+                step("FCI builder::write_into");
+                guard(|| werr(h.write_into(buf)))
+            }
         }
     };
     let probe = write(&mut []);
@@ -139,7 +146,8 @@ fn observe_part(p: &PartCase) -> BuildObs {
         Err(c) => Err(c.clone()),
     };
     let lens: Vec<usize> = match &size {
-        Ok(Ok(n)) => (0..=n + 8).collect(),
+        Ok(Ok(n)) if *n <= 600 => (0..=n + 8).collect(),
+        Ok(Ok(n)) => vec![0, 1, n - 1, *n, n + 1, n + 8],
         _ => vec![0, 64, 1024],
     };
     let mut writes = Vec::new();
@@ -163,6 +171,8 @@ fn part_reference(p: &PartCase) -> (Vec<u8>, bool) {
     match p {
         PartCase::Chunk(c) => (ref_encode_chunk(c), c.items.iter().all(item_valid)),
         PartCase::Item(i) => (ref_encode_item(i), item_valid(i)),
+        // FCI bytes are compared inside feedback packets (C07); used directly only sizes are judged
+        PartCase::Fci(_) => (Vec::new(), false),
     }
 }
 
@@ -170,6 +180,13 @@ pub(crate) fn c06_part_oracle(p: &PartCase, st: &mut Stats) -> Verdict {
     let name = match p {
         PartCase::Chunk(_) => "SdesChunkBuilder",
         PartCase::Item(_) => "SdesItemBuilder",
+        PartCase::Fci(f) => match f {
+            FciSpec::Nack(_) => "NackBuilder-as-writer",
+            FciSpec::Pli => "PliBuilder-as-writer",
+            FciSpec::Sli(_) => "SliBuilder-as-writer",
+            FciSpec::Rpsi { .. } => "RpsiBuilder-as-writer",
+            FciSpec::Fir(_) => "FirBuilder-as-writer",
+        },
     };
     st.label(name);
     let o = observe_part(p);
@@ -183,7 +200,7 @@ pub(crate) fn c06_part_oracle(p: &PartCase, st: &mut Stats) -> Verdict {
 }
 
 pub fn part_case(inv: bool) -> BoxedStrategy<PartCase> {
-    prop_oneof![gen::chunk_spec(inv).prop_map(PartCase::Chunk), gen::item_spec(inv).prop_map(PartCase::Item)].boxed()
+    prop_oneof![2 => gen::chunk_spec(inv).prop_map(PartCase::Chunk), 2 => gen::item_spec(inv).prop_map(PartCase::Item), 1 => gen::fci_spec(inv).prop_map(PartCase::Fci)].boxed()
 }
 
 pub const ITEM_SWEEP_N: u64 = 258 + 7 * 257;
@@ -282,6 +299,7 @@ pub fn c07_part_oracle(p: &PartCase, st: &mut Stats) -> Verdict {
     let name = match p {
         PartCase::Chunk(_) => "SdesChunkBuilder",
         PartCase::Item(_) => "SdesItemBuilder",
+        PartCase::Fci(_) => "FCI builder used as a writer",
     };
     st.label(name);
     let (want, valid) = part_reference(p);
@@ -300,6 +318,7 @@ pub fn c07_part_oracle(p: &PartCase, st: &mut Stats) -> Verdict {
             let b = item(i);
             no_panic("SdesItemBuilder::write_into", || werr(b.write_into(&mut buf)))
         }
+        PartCase::Fci(_) => return Ok(()),
     }
     .map_err(|f| Failure::new(format!("C07:{name}:{}", f.signature), f.detail))?;
     ensure!(r == Ok(want.len()), format!("C07:{name}:length"), "write_into = {r:?}, RFC image has {} bytes", want.len());
